@@ -182,7 +182,9 @@ def main(tier, replay=None):
         rp = json.load(open(replay))
         for f in rp.get("failing_inputs", []):
             c = f["case"]
-            cases.append((c["variant"], [T.unser(k, x) for k, x in zip(T.VARIANTS[c["variant"]]["args"], c["args"])]))
+            sp = T.VARIANTS[c["variant"]]
+            ks = ["u64"] * len(c["args"]) if "gen" in sp else sp["args"]
+            cases.append((c["variant"], [T.unser(k, x) for k, x in zip(ks, c["args"])]))
     else:
         for v in sorted(T.VARIANTS):
             spec = T.VARIANTS[v]
@@ -194,11 +196,12 @@ def main(tier, replay=None):
         spec = T.VARIANTS[v]
         mname = spec.get("model", v.split("@")[0])
         mname = live_fixed.get(mname, mname)
-        impl_in.append(v + " " + " ".join(fmt_impl(k, x) for k, x in zip(spec["args"], a)))
-        if "margs" in spec:      # the model takes the operands the call form duplicates (x op= x)
+        ks = T.kinds(spec, a)
+        impl_in.append(v + " " + " ".join(fmt_impl(k, x) for k, x in zip(ks, a)))
+        if "margs" in spec:      # the model takes the operands the call form duplicates (x op= x) or a destination's old value
             model_in.append(mname + " " + " ".join(str(x) for x in spec["margs"](*a)))
         else:
-            model_in.append(mname + " " + " ".join(fmt_model(k, x) for k, x in zip(spec["args"], a)))
+            model_in.append(mname + " " + " ".join(fmt_model(k, x) for k, x in zip(ks, a)))
     rc, iout, ierr = vf.run_lines(himpl, "\n".join(impl_in) + "\n", timeout=900)
     if rc != 0 or len(iout) != len(cases):
         chk.broke("implementation harness failed (rc=%s, %d/%d lines)" % (rc, len(iout), len(cases)), ierr + "\n" + (impl_in[len(iout)] if len(iout) < len(impl_in) else ""))
@@ -215,19 +218,22 @@ def main(tier, replay=None):
     for i, (v, a) in enumerate(cases):
         spec = T.VARIANTS[v]
         got = iout[i].split()
-        exp = spec["oracle"](*a)
+        ks = T.kinds(spec, a)
+        exp = spec["oracle"](*a) if spec["oracle"] is not None else None
         if exp is not None:
             exp = [str(x) for x in (exp if isinstance(exp, (list, tuple)) else [exp])]
+        if "verify" in spec and got != ["UNKNOWN-VARIANT"] and not spec["verify"](a, got):
+            exp = ["<specification predicate: g = gcd(a,b), a u + b v = g, cofactors within GMP's documented bounds>"]
         dist[v] = dist.get(v, 0) + 1
         chk.count((v, tuple(a)), nontrivial=T.nontrivial(spec, a))
         if i % 1499 == 0:
-            chk.sample({"variant": v, "args": [T.ser(k, x) for k, x in zip(spec["args"], a)], "impl": iout[i].strip(), "spec": exp})
+            chk.sample({"variant": v, "args": [T.ser(k, x) for k, x in zip(ks, a)], "impl": iout[i].strip(), "spec": exp})
         if got == ["UNKNOWN-VARIANT"]:
             chk.broke("harness does not know variant " + v)
             continue
         if exp is not None and got != exp:
             chk.fail_input(spec["site"], T.klass_of(spec, a),
-                           {"variant": v, "args": [T.ser(k, x) for k, x in zip(spec["args"], a)]}, exp, iout[i].strip(),
+                           {"variant": v, "args": [T.ser(k, x) for k, x in zip(ks, a)]}, exp, iout[i].strip(),
                            "implementation differs from integer arithmetic over Z")
         if mout is not None and not spec.get("oracle_only"):
             mg = mout[i].split()
